@@ -1221,8 +1221,9 @@ impl ObjectFile {
         let mut second = a_obj.block_map.iter();
         second.next();
         if std::iter::zip(first, second).any(|((&a_st, a_bl), (&b_st, b_bl))| {
-            let ar = a_st .. (a_st + a_bl.len() as u16);
-            let br = b_st .. (b_st + b_bl.len() as u16);
+            // (computed in usize: a block read from an untrusted object file may reach past xFFFF)
+            let ar = usize::from(a_st) .. (usize::from(a_st) + a_bl.len());
+            let br = usize::from(b_st) .. (usize::from(b_st) + b_bl.len());
             ranges_overlap(ar, br)
         }) {
             return Err(AsmErr::new(AsmErrKind::OverlappingBlocks, []));
@@ -1294,11 +1295,12 @@ impl ObjectFile {
             (ma, mb) => ma.or(mb)
         };
         for (addr, linked_addr) in relocations {
-            // TODO: handle case where the address needed is not found in block map
-            // should really only occur from invalid manipulation of obj file
-            a_obj.get_mut(addr)
-                .unwrap_or_else(|| unreachable!("object file should have had address x{addr:04X} bound"))
-                .replace(linked_addr);
+            // A relocation entry that points at an address no block defines can only come from
+            // an invalid (e.g. damaged) object file; report it instead of panicking.
+            let Some(word) = a_obj.get_mut(addr) else {
+                return Err(AsmErr::new(AsmErrKind::UndetAddrStmt, []));
+            };
+            word.replace(linked_addr);
         }
 
         Ok(a_obj)
